@@ -38,7 +38,9 @@ type SymTab struct {
 	info   []SymInfo
 	byName map[string]symID
 	// square: s*s rewrites to the polynomial (s = sqrt(p))
-	square map[symID]*Poly
+	square  map[symID]*Poly
+	mulMemo map[[4]uint64]*Poly
+	memoGen int
 }
 
 func NewSymTab() *SymTab {
@@ -112,6 +114,41 @@ type term struct {
 // Poly is immutable after construction by the operations below.
 type Poly struct {
 	t map[string]*term
+	// caches (a polynomial is not modified once an operation has returned it)
+	sorted []*term
+	str    string
+	h1, h2 uint64
+	hashed bool
+}
+
+// hash is an order-independent 128-bit fingerprint of the polynomial (memo key of products).
+func (p *Poly) hash() (uint64, uint64) {
+	if p.hashed {
+		return p.h1, p.h2
+	}
+	var a, b uint64
+	for k, t := range p.t {
+		h := uint64(14695981039346656037)
+		for i := 0; i < len(k); i++ {
+			h = (h ^ uint64(k[i])) * 1099511628211
+		}
+		g := uint64(1469598103934665603)
+		for _, w := range t.c.Num().Bits() {
+			g = (g ^ uint64(w)) * 1099511628211
+		}
+		g = (g ^ uint64(t.c.Sign()+2)) * 1099511628211
+		for _, w := range t.c.Denom().Bits() {
+			g = (g ^ uint64(w) ^ 0x9e3779b97f4a7c15) * 1099511628211
+		}
+		x := h*0x9e3779b97f4a7c15 ^ g
+		x ^= x >> 29
+		x *= 0xbf58476d1ce4e5b9
+		x ^= x >> 32
+		a += x
+		b += (x * 0x94d049bb133111eb) ^ (h + g<<1)
+	}
+	p.h1, p.h2, p.hashed = a, b+uint64(len(p.t)), true
+	return p.h1, p.h2
 }
 
 func newPoly() *Poly { return &Poly{t: map[string]*term{}} }
@@ -217,6 +254,26 @@ func (p *Poly) Mul(q *Poly, st *SymTab) *Poly {
 	if len(p.t) == 0 || len(q.t) == 0 {
 		return r
 	}
+	// large products recur on every re-executed path: memoise them by fingerprint
+	var mk [4]uint64
+	memo := st != nil && len(p.t)*len(q.t) >= 256
+	if memo {
+		a1, a2 := p.hash()
+		b1, b2 := q.hash()
+		if a1 > b1 || (a1 == b1 && a2 > b2) {
+			a1, a2, b1, b2 = b1, b2, a1, a2
+		}
+		mk = [4]uint64{a1, a2, b1, b2}
+		if st.mulMemo == nil {
+			st.mulMemo = map[[4]uint64]*Poly{}
+		}
+		if hit, ok := st.mulMemo[mk]; ok && st.memoGen == len(st.square) {
+			return hit
+		}
+	}
+	defer func() {
+		_ = mk
+	}()
 	for _, a := range p.t {
 		for _, b := range q.t {
 			r.addTerm(mulMono(a.m, b.m), new(big.Rat).Mul(a.c, b.c))
@@ -224,6 +281,14 @@ func (p *Poly) Mul(q *Poly, st *SymTab) *Poly {
 	}
 	if st != nil && len(st.square) > 0 {
 		r = r.reduceSquares(st)
+	}
+	if memo {
+		if st.memoGen != len(st.square) {
+			// new rewrite rules may change reduced products: start a new memo generation
+			st.mulMemo = map[[4]uint64]*Poly{}
+			st.memoGen = len(st.square)
+		}
+		st.mulMemo[mk] = r
 	}
 	return r
 }
@@ -301,11 +366,23 @@ func (p *Poly) Support() []symID {
 func (p *Poly) NumTerms() int { return len(p.t) }
 
 func (p *Poly) sortedTerms(st *SymTab) []*term {
-	ts := make([]*term, 0, len(p.t))
-	for _, t := range p.t {
-		ts = append(ts, t)
+	if p.sorted != nil && len(p.sorted) == len(p.t) {
+		return p.sorted
 	}
-	sort.Slice(ts, func(i, j int) bool { return monoName(ts[i].m, st) < monoName(ts[j].m, st) })
+	type named struct {
+		name string
+		t    *term
+	}
+	ns := make([]named, 0, len(p.t))
+	for _, t := range p.t {
+		ns = append(ns, named{monoName(t.m, st), t})
+	}
+	sort.Slice(ns, func(i, j int) bool { return ns[i].name < ns[j].name })
+	ts := make([]*term, len(ns))
+	for i, n := range ns {
+		ts[i] = n.t
+	}
+	p.sorted = ts
 	return ts
 }
 
@@ -330,6 +407,15 @@ func (p *Poly) String(st *SymTab) string {
 	if len(p.t) == 0 {
 		return "0"
 	}
+	if p.str != "" {
+		return p.str
+	}
+	out := p.buildString(st)
+	p.str = out
+	return out
+}
+
+func (p *Poly) buildString(st *SymTab) string {
 	var b strings.Builder
 	for i, t := range p.sortedTerms(st) {
 		c := t.c
